@@ -612,6 +612,9 @@ htp_status_t htp_tx_req_process_body_data_ex(htp_tx_t *tx, const void *data, siz
     d.len = len;
     d.is_last = (data == NULL && len == 0);
 
+    // Keep track of body size before decompression.
+    tx->request_message_len += d.len;
+
     switch(tx->request_content_encoding) {
         case HTP_COMPRESSION_UNKNOWN:
         case HTP_COMPRESSION_NONE:
